@@ -134,7 +134,8 @@ def pool_scenarios(tier):
     sets = [cset("v2", [1, 2]), cset("v2", [1]), cset("v2", [2], basis=2), cset("v2", [3]), cset("v1", [4]), cset("v1", [5]),
             cset("v2", [6, 7]), cset("v2", [6], basis=1), cset("v2", [7], basis=1), cset("v2", [2, 6], basis=2), cset("v2", [6, 3])]
     if tier == "quick":
-        nodes = nodes[:6]
+        nodes = nodes[:5]
+        sets = [c for c in sets if c["txs"] not in ([6], [7], [2, 6])]
     a = scenario("pool-fork", [1, 2, 3], nodes, T, sets=sets)
     # a second, smaller tree where the fork CONFIRMS the pooled parent and child in one block and a
     # later reorg un-confirms them again
@@ -169,7 +170,7 @@ def rebase_scenarios(tier):
     nodes = [(1, [1]), (2, []), (3, [2]), (1, [4]), (5, []), (6, [3])]
     rsets = [[1], [1, 2], [2], [4], [4, 5], [3], [1, 4], [6, 7]]
     if tier == "quick":
-        rsets = [[1, 2], [2], [4, 5], [6, 7]]
+        rsets = [[1], [1, 2], [4, 5], [1, 4], [6, 7]]
     sets = [cset("v2", [1, 2]), cset("v2", [6, 7]), cset("v2", [4]), cset("v2", [6, 8])]
     a = scenario("rebase-fork", [1, 2, 3], nodes, T, sets=sets, rsets=rsets, txsetc=[2, 5, 7, 4, 9])
     return [a]
@@ -186,9 +187,12 @@ def write_scens(wd, scens, name):
 NODEV = {"DevPartialAdd": False, "DevSharedIndex": False, "DevEphDrop": False, "DevStaleParents": False}
 
 
-def leg_m(wd, cfg, scfile, what, devs=None, timeout=900, workers=8, tag=None):
-    """exhaustive TLC run with the ideal rules (no deviation): the properties must hold"""
+def leg_m(wd, cfg, scfile, what, devs=None, timeout=900, workers=8, tag=None, emit=False):
+    """exhaustive TLC run with the ideal rules (no deviation): the properties must hold.  emit=True
+    also exports the explored graph as edges (for cfgs whose graph IS the stimulus graph of Leg R)"""
     cfgp = cfg_with_devs(wd, cfg, devs or NODEV, tag or "")
+    if emit:
+        open(cfgp, "a").write("ACTION_CONSTRAINT EmitEdge\n")
     r = vlib.run_tlc(wd, "MCPool", cfgp, workers=workers, timeout=timeout, env={"POOLSC": scfile}, tag=(tag or cfg.replace(".cfg", "")))
     vlib.tlc_must_pass(r, what)
     log("  M: %s: %d distinct states, %d transitions, depth %d, %.1fs" % (what, r.distinct, r.generated, r.depth, r.wall))
@@ -206,11 +210,14 @@ def probe(wd, cfg, scfile, dev, expect, tag):
     return hit
 
 
-def stimulus_paths(wd, cfg, scfile, rng, tag, max_paths=None, max_len=40):
-    """TLC's explored graph (ideal rules, canonical revalidation) -> edge cover -> action lists"""
-    cfgp = cfg_with_devs(wd, cfg, NODEV, "_" + tag)
-    r = vlib.run_tlc(wd, "MCPool", cfgp, workers=4, timeout=1200, env={"POOLSC": scfile}, tag=tag)
-    vlib.tlc_must_pass(r, cfg)
+def stimulus_paths(wd, cfg, scfile, rng, tag, max_paths=None, max_len=40, tlc=None):
+    """TLC's explored graph (ideal rules, canonical revalidation) -> edge cover -> action lists;
+    tlc: a finished run of the same graph that already exported its edges (leg_m(emit=True))"""
+    r = tlc
+    if r is None:
+        cfgp = cfg_with_devs(wd, cfg, NODEV, "_" + tag)
+        r = vlib.run_tlc(wd, "MCPool", cfgp, workers=4, timeout=1200, env={"POOLSC": scfile}, tag=tag)
+        vlib.tlc_must_pass(r, cfg)
     by_sc = {}
     for raw in r.edges.raw:
         k = int(re.search(r'"sc":(\d+)', raw).group(1))
@@ -337,9 +344,9 @@ def replay_paths(wd, binary, scens, paths, tag, verdict, shards=8, stub="", acce
     return res
 
 
-def leg_r(wd, binary, prop, cfg, scens, scname, rng, verdict, devs, max_paths=None, max_len=40, shards=8, accept=None):
+def leg_r(wd, binary, prop, cfg, scens, scname, rng, verdict, devs, max_paths=None, max_len=40, shards=8, accept=None, tlc=None):
     scfile = write_scens(wd, scens, scname)
-    paths, g = stimulus_paths(wd, cfg, scfile, rng, "edges_" + scname, max_paths=max_paths, max_len=max_len)
+    paths, g = stimulus_paths(wd, cfg, scfile, rng, "edges_" + scname, max_paths=max_paths, max_len=max_len, tlc=tlc)
     res = replay_paths(wd, binary, scens, paths, scname, verdict, shards=shards, accept=accept)
     v = validate_all(wd, prop, scname, shards, devs, verdict, accept=accept)
     log("  R: %s: %d paths / %d events on real nodes (%d harness-level findings, counts %s); TLC validated in %.1fs, %d rejected" %
@@ -409,6 +416,24 @@ def evidence(prop, tier, ms, probes, rr, tt, t0, verdict, model_note, extra_assu
     vlib.write_evidence(prop, tier, "model_checking", cov, COMMON_ASSUMPTIONS + list(extra_assumptions), time.time() - t0, len(verdict.violations))
 
 
+def parallel(jobs):
+    """runs the legs concurrently (TLC, the Go harness and the trace validation overlap; CPU is
+    shared with other checks, so this mostly hides JVM start-up and single-threaded phases);
+    jobs: {name: thunk}; returns {name: result}; the first exception is re-raised"""
+    out = {}
+    with cf.ThreadPoolExecutor(max_workers=len(jobs)) as ex:
+        futs = {name: ex.submit(fn) for name, fn in jobs.items()}
+        err = None
+        for name, fu in futs.items():
+            try:
+                out[name] = fu.result()
+            except Exception as e:      # noqa
+                err = err or e
+        if err:
+            raise err
+    return out
+
+
 # ------------------------------------------------------------------ C14
 
 def run(tier):
@@ -421,16 +446,18 @@ def run(tier):
     rng = random.Random(vlib.seed())
     scens = contract_scenarios(tier)
     scfile = write_scens(wd, scens, "contract_m")
-    ms = [leg_m(wd, "Pool_contract_mc.cfg", scfile, "contract family (ideal rules)")]
-    probes = {"DevPartialAdd breaks AtomicityStrict": probe(wd, "Pool_dev_partial.cfg", scfile, "DevPartialAdd", ["AtomicityP"], "probe_partial"),
-              "DevSharedIndex breaks LookupExactStrict": probe(wd, "Pool_dev_index.cfg", scfile, "DevSharedIndex", ["LookupExactP"], "probe_index")}
+    nh, st = (96, 40) if tier == "quick" else (1200, 60)
+    res = parallel({
+        "m": lambda: leg_m(wd, "Pool_contract_mc.cfg", scfile, "contract family (ideal rules)", workers=4),
+        "p1": lambda: probe(wd, "Pool_dev_partial.cfg", scfile, "DevPartialAdd", ["AtomicityP"], "probe_partial"),
+        "p2": lambda: probe(wd, "Pool_dev_index.cfg", scfile, "DevSharedIndex", ["LookupExactP"], "probe_index"),
+        "r": lambda: leg_r(wd, binary, PROP, "Pool_contract_edges.cfg", scens, "contract", rng, verdict, devs, accept=acc),
+        "t": lambda: leg_t(wd, binary, PROP, "c14", verdict, devs, histories=nh, steps=st, accept=acc, timeout=3000),
+    })
+    ms, rr, tt = [res["m"]], [res["r"]], res["t"]
+    probes = {"DevPartialAdd breaks AtomicityStrict": res["p1"], "DevSharedIndex breaks LookupExactStrict": res["p2"]}
     if not all(probes.values()):
         raise vlib.Infra("a named deviation no longer produces its design-level counterexample: %s" % probes)
-    rr = [leg_r(wd, binary, PROP, "Pool_contract_edges.cfg", scens, "contract", rng, verdict, devs, accept=acc)]
-    if tier == "quick":
-        tt = leg_t(wd, binary, PROP, "c14", verdict, devs, histories=96, steps=40, accept=acc)
-    else:
-        tt = leg_t(wd, binary, PROP, "c14", verdict, devs, histories=1200, steps=60, accept=acc, timeout=3000)
     rc = verdict.finish()
     evidence(PROP, tier, ms, probes, rr, tt, t0, verdict,
              "family contract: 2 scenarios (v1+v2 regime, v2-only regime), 7 resp. 6 transactions incl. parent/child, a conflicting pair of each version; "
@@ -469,7 +496,8 @@ def selftest_common(prop, wd, binary, scens, edges_cfg, tag, corruptions, stub, 
     rng = random.Random(1)
     devs = deviations()
     scfile = write_scens(wd, scens, tag + "_m")
-    paths, _ = stimulus_paths(wd, edges_cfg, scfile, rng, "edges_" + tag, max_paths=60)
+    tlc = leg_m(wd, edges_cfg, scfile, "stimulus graph", workers=4, emit=True, tag="st_" + tag) if "_mc" in edges_cfg else None
+    paths, _ = stimulus_paths(wd, edges_cfg, scfile, rng, "edges_" + tag, max_paths=60, tlc=tlc)
     v = vlib.Verdict(prop + "-selftest"); v.findings = []
     replay_paths(wd, binary, scens, paths, tag, v, shards=1)
     tr = os.path.join(wd, "pooltrace-%s-0.ndjson" % tag); sc = os.path.join(wd, "poolscens-%s-0.json" % tag)
